@@ -68,6 +68,9 @@ pub fn install_panic_hook() {
                 "<non-string panic>".to_string()
             };
             let loc = info.location().map(|l| format!("{}:{}", l.file(), l.line())).unwrap_or_default();
+            if std::env::var_os("SIM_PANIC_TRACE").is_some() {
+                eprintln!("panic: {} @ {}", msg, loc);
+            }
             let _ = LAST_PANIC.try_with(|p| *p.borrow_mut() = Some(format!("{} @ {}", msg, loc)));
         }));
     });
